@@ -31,8 +31,7 @@ pub struct PeerMon {
 pub struct Mon {
     pub p: Vec<PeerMon>,
     pub deviations: usize,
-    pub obs_scanned: usize,
-    pub obs_requests: Vec<(u32, u32, u32)>,
+    pub obs_joined: bool,
 }
 
 const BIG: usize = 16387;
@@ -67,10 +66,7 @@ impl Scenario for Adv {
     fn setup(&self, w: &mut World, mon: &mut Mon) {
         let t = w.t.clone();
         mon.p = vec![PeerMon::default(); self.adversaries + 1];
-        // observer: handshake, empty bitfield (gets unchoked), interested
-        let o = self.obs();
-        let id = w.peers[o].cfg.id;
-        w.feed(o, &[refwire::handshake(t.meta.info_hash(), &id), Msg::Bitfield(vec![0x00]), Msg::Interested]);
+        // the observer (incoming) joins at any point of the history: event "So"
         for k in 0..self.adversaries {
             let id = w.peers[k].cfg.id;
             w.feed(k, &[refwire::handshake(t.meta.info_hash(), &id), Msg::Bitfield(vec![0xc0])]);
@@ -115,7 +111,10 @@ impl Scenario for Adv {
             }
         }
         let o = self.obs();
-        if !w.peers[o].ended.get() {
+        if !w.peers[o].ended.get() && !mon.obs_joined {
+            out.push("So".to_string());
+        }
+        if !w.peers[o].ended.get() && mon.obs_joined {
             out.push("Q0".to_string());
             out.push("Q1".to_string());
             if !w.peers[o].pending.is_empty() {
@@ -126,6 +125,13 @@ impl Scenario for Adv {
     }
     fn concretize(&self, w: &World, mon: &Mon, sym: &str) -> Vec<Ev> {
         let t = &w.t;
+        if sym == "So" {
+            // handshake, empty bitfield (the client unchokes it), interested — in one read
+            let o = self.obs();
+            let id = w.peers[o].cfg.id;
+            let bytes: Vec<u8> = [refwire::handshake(t.meta.info_hash(), &id), Msg::Bitfield(vec![0x00]), Msg::Interested].iter().flat_map(refwire::encode).collect();
+            return vec![Ev::Feed(o, bytes)];
+        }
         if let Some(i) = sym.strip_prefix('Q') {
             let i: u32 = i.parse().unwrap();
             let len = t.pieces[i as usize].len().min(16384) as u32;
@@ -200,8 +206,11 @@ impl Scenario for Adv {
             return Some(("connection-task-panicked", p.clone()));
         }
         let t = &w.t;
+        if last == Some("So") {
+            mon.obs_joined = true;
+        }
         if let Some(sym) = last {
-            if !sym.starts_with('Q') {
+            if !sym.starts_with('Q') && sym != "So" {
                 let k: usize = sym[sym.len() - 1..].parse().unwrap();
                 let head = &sym[..sym.len() - 1];
                 if k < self.adversaries {
@@ -319,7 +328,7 @@ impl Scenario for Adv {
     }
     fn key(&self, w: &World, mon: &Mon) -> String {
         let pm: Vec<String> = mon.p.iter().map(|p| format!("{:?}/{:?}/{}", p.outstanding, p.last_accepted, p.closed)).collect();
-        format!("{} mon={:?} dev={}", strip_counters(&w.default_key()), pm, mon.deviations)
+        format!("{} mon={:?} dev={} obs={}", strip_counters(&w.default_key()), pm, mon.deviations, mon.obs_joined)
     }
 }
 
@@ -348,7 +357,7 @@ pub fn run(ctx: &Ctx) -> Outcome {
     let mut o = Outcome::new("model_checking");
     explore::stats_outcome(&total, &mut o);
     o.set("scenarios", Value::Array(per));
-    o.set("rule", json!("torrent: piece 0 = 16387 B (blocks 16384 + 3), piece 1 = 5 B; adversarial peer k (after handshake + full bitfield): N unchoke, Go/Gn correct answer to the oldest/newest outstanding request, Xo/Xn same coordinates with one payload bit flipped, Wi other piece index, Wb begin+1, Wl/WL one byte short/long, D duplicate of the last accepted block, U block at an offset never requested, C choke, Z close, R reset, L release of a held-back broadcast; observer (incoming, unchoked, interested): Q0/Q1 requests the first block of piece 0/1; histories with at most `dev` non-honest events (N, G*, L are honest); every tie-break of the chooser enumerated."));
+    o.set("rule", json!("torrent: piece 0 = 16387 B (blocks 16384 + 3), piece 1 = 5 B; adversarial peer k (after handshake + full bitfield): N unchoke, Go/Gn correct answer to the oldest/newest outstanding request, Xo/Xn same coordinates with one payload bit flipped, Wi other piece index, Wb begin+1, Wl/WL one byte short/long, D duplicate of the last accepted block, U block at an offset never requested, C choke, Z close, R reset, L release of a held-back broadcast; observer (incoming): So joins at any point (handshake + empty bitfield + interested in one read; the bitfield it is sent is checked), then Q0/Q1 requests the first block of piece 0/1; histories with at most `dev` non-honest events (N, G*, L are honest); every tie-break of the chooser enumerated."));
     o.assume("payload bytes enter the state key only as per-block tags {empty, correct, corrupt}: no code path inspects payload other than through SHA-1 of the whole piece");
     o
 }
